@@ -405,6 +405,8 @@ Definition update_chain (p : pdb) (ij : nat * nat) (f : chain -> chain) : pdb :=
 (* add_modifications *)
 Definition apply_modres (p : pdb) (ln : Z) (resname chain : text) (num : Z) (ins : option text) (std comment : text) : pdb * list diag :=
   let nf := [mkd DInvalidating "Modified residue could not be found" ln] in
+  (* compared in the upper-case form in which names and insertion codes are stored *)
+  let resname := upper resname in let ins := option_map upper ins in
   match find_chain p chain 0 with
   | None => (p, nf)
   | Some ij =>
@@ -454,6 +456,7 @@ Definition count_atoms_before (p : pdb) (mi ci ri : nat) (cfi ai : nat) : nat :=
   end%nat.
 Definition find_sg (p : pdb) (who : text * Z * option text * text) : option nat :=
   let '(resname, num, ins, chain) := who in
+  let resname := upper resname in let ins := option_map upper ins in
   match find_chain p chain 0 with
   | None => None
   | Some (mi, ci) =>
